@@ -78,7 +78,7 @@ theorem cleaner_obs_faithful (cfg : Cfg) (s : State) (h : Jx.Grid.shaped s.grid 
     (a : List Int) : (step cfg s a).2.obs = observe cfg (step cfg s a).1 := Cleaner.obs_faithful h a
 
 /-- the same at `reset` (wave 3): `reset` computes the mask for `zeros((num_agents, 2))`, not for the generated
-locations; for a generated state (well-shaped grid, all agents on the origin — every draw of `generate`) the FIRST
+locations; for a generated state (well-shaped grid, all agents on the origin — `generate` of every maze accepted by the certificate `isRecursiveDivisionMaze`) the FIRST
 timestep shows the documented function of the reset state -/
 theorem cleaner_reset_obs_faithful (cfg : Cfg) (g : State)
     (hs : Jx.Grid.shaped g.grid cfg.numRows cfg.numCols = true)
@@ -173,8 +173,9 @@ the same, every clean tile is still clean and the number of agents is the same -
 theorem cleaner_run_conserved (cfg : Cfg) (s : State) (hC : Consistent cfg s) (as : List (List Nat))
     (hA : InSpec cfg as) : conserved s (runState cfg s (toInt as)) = true := Cleaner.run_conserved hC as hA
 
-/-- every state of every episode from `reset`: for EVERY draw of the generator (any recursive-division maze of the
-configured size ≥ 1×1) and every in-spec sequence of joint actions (legal or not, of any length), the state reached is
+/-- every state of every episode from `reset`: for every maze ACCEPTED BY THE CERTIFICATE `isRecursiveDivisionMaze` (audit r5 #11: the
+shared `generate_maze` is not transliterated; the certificate is evaluated on real reset states by the harness) of the
+configured size ≥ 1×1 and every in-spec sequence of joint actions (legal or not, of any length), the state reached is
 consistent, conserves the reset state's walls / clean tiles / agents, and its walls are exactly the drawn maze -/
 theorem cleaner_consistent_along (cfg : Cfg) (maze : Jx.Grid Bool) (hr : 0 < cfg.numRows) (hc : 0 < cfg.numCols)
     (hm : MazeGen.isRecursiveDivisionMaze maze cfg.numRows cfg.numCols = true) (as : List (List Nat))
@@ -244,8 +245,9 @@ theorem cleaner_episode_return_from_reset (cfg : Cfg) (s : State) (as : List (Li
     runReturn cfg s as = objective cfg (runState cfg s as) :=
   Cleaner.run_return_from_reset cfg s as h0 h1
 
-/-- the two hypotheses above are established by `reset` for EVERY draw of the generator (wave 3), hence: for every
-recursive-division maze of the configured size ≥ 1×1 and ANY list of joint actions played from the reset state, the
+/-- the two hypotheses above are established by `reset` for every maze accepted by the certificate `isRecursiveDivisionMaze` (wave 3;
+"of certificate", audit r5 #11), hence: for every
+such maze of the configured size ≥ 1×1 and ANY list of joint actions played from the reset state, the
 return is the objective recomputed from the final state: clean tiles − 1 − penalty · steps -/
 theorem cleaner_episode_return_from_generated (cfg : Cfg) (maze : Jx.Grid Bool) (hr : 0 < cfg.numRows)
     (hc : 0 < cfg.numCols) (hm : MazeGen.isRecursiveDivisionMaze maze cfg.numRows cfg.numCols = true)
@@ -322,7 +324,9 @@ theorem cleaner_reset_cert (cfg : Cfg) (s : State) (h : resetCert cfg s = true) 
   · exact hd
   · exact absurd hw hp.2
 
-/-- the transliterated generator passes the certificate for EVERY draw: whatever recursive-division maze of
+/-- the transliterated generator passes the certificate for every maze accepted by the certificate `isRecursiveDivisionMaze`
+(audit r5 #11: `generate_maze` itself is NOT transliterated — that its output passes `isRecursiveDivisionMaze` is checked on real reset
+states by the harness, not proved): whatever such maze of
 the configured size (at least 1×1) the shared maze generator delivers, `reset cfg (generate cfg maze)` is a
 certified reset state whose walls are exactly the drawn maze (walls as generated) -/
 theorem cleaner_generate_cert (cfg : Cfg) (maze : Jx.Grid Bool) (hr : 0 < cfg.numRows) (hc : 0 < cfg.numCols)
@@ -428,12 +432,19 @@ example : Consistent Props.CleanerEx.cfg Props.CleanerEx.st ∧ 0 ≤ Props.Clea
 example : (step { Props.CleanerEx.cfg with timeLimit := 4 } Props.CleanerEx.st [1, 1]).2.obs.stepCount = 4 := by
   decide +kernel
 
+/-! NOTE on what the membership theorems of this section do and do not cover (audits r4 #6, r5 #6, r6 #8): the dtype tag of every leaf
+is written by `toNValue` (by construction) — a wrong dtype in the real code cannot falsify `….valid (toNValue …) = true`; dtypes and
+field order of the real observations are compared by the `cleaner.spec` / `cleaner.state` ops (`nvalue`: field order, shape, dtype, data) and
+`jax.eval_shape` in the sweeps.  Shapes are READ OFF the value by `toNValue` (widths off the first row): see `…_obs_valid_only`. -/
+
 /-! #### membership in the DECLARED spec (wave 3): structure, shapes, dtypes and bounds -/
 open Sp PzS
 
 /-- the model's `obsSpec` / `actionSpec` ARE the specs generated from the real spec objects (Gen/Specs.lean) for the
 three catalogue configurations of Cleaner (5×7 with 2 agents and limit 11; 4×5 and 3×6 with one agent and the default
-limit rows·cols); for every other configuration the `cleaner.spec` op compares them with the real objects on every run -/
+limit rows·cols); for every other configuration the `cleaner.spec` op compares them with the real objects on every run
+SPEC-ONLY fourth configuration `Cleaner(RandomGenerator(3, 8, 5), time_limit=13)`: rows 3, columns 8, 5 agents, 4 actions, 2
+coordinates and the limit 13 pairwise distinct; action / reward / discount specs now for EVERY configuration (audit r5 #2) -/
 theorem cleaner_obsSpec_generated :
     prefixed "observation_spec." (obsSpec ⟨5, 7, 2, 11, 1/2⟩) = declared "cleaner-5x7x2" "observation_spec." ∧
     prefixed "observation_spec." (obsSpec ⟨4, 5, 1, 20, 1/2⟩) = declared "cleaner-none" "observation_spec." ∧
@@ -441,11 +452,22 @@ theorem cleaner_obsSpec_generated :
     [("action_spec", actionSpec ⟨5, 7, 2, 11, 1/2⟩)] = declared "cleaner-5x7x2" "action_spec" ∧
     [("action_spec", actionSpec ⟨4, 5, 1, 20, 1/2⟩)] = declared "cleaner-none" "action_spec" ∧
     [("reward_spec", PzS.rewardSpec)] = declared "cleaner-5x7x2" "reward_spec" ∧
-    [("discount_spec", discountSpec)] = declared "cleaner-5x7x2" "discount_spec" := by
-  refine ⟨by decide, by decide, by decide, by decide, by decide, by decide, by decide⟩
+    [("discount_spec", discountSpec)] = declared "cleaner-5x7x2" "discount_spec" ∧
+    [("action_spec", actionSpec ⟨3, 6, 1, 18, 1/2⟩)] = declared "cleaner-none-3x6" "action_spec" ∧
+    [("reward_spec", PzS.rewardSpec)] = declared "cleaner-none" "reward_spec" ∧
+    [("discount_spec", discountSpec)] = declared "cleaner-none" "discount_spec" ∧
+    [("reward_spec", PzS.rewardSpec)] = declared "cleaner-none-3x6" "reward_spec" ∧
+    [("discount_spec", discountSpec)] = declared "cleaner-none-3x6" "discount_spec" ∧
+    prefixed "observation_spec." (obsSpec ⟨3, 8, 5, 13, 1/2⟩) = declared "spec-only-cleaner-3x8x5" "observation_spec." ∧
+    [("action_spec", actionSpec ⟨3, 8, 5, 13, 1/2⟩)] = declared "spec-only-cleaner-3x8x5" "action_spec" ∧
+    [("reward_spec", PzS.rewardSpec)] = declared "spec-only-cleaner-3x8x5" "reward_spec" ∧
+    [("discount_spec", discountSpec)] = declared "spec-only-cleaner-3x8x5" "discount_spec" := by
+  refine ⟨by decide +kernel, by decide +kernel, by decide +kernel, by decide +kernel, by decide +kernel, by decide +kernel,
+    by decide +kernel, by decide +kernel, by decide +kernel, by decide +kernel, by decide +kernel, by decide +kernel,
+    by decide +kernel, by decide +kernel, by decide +kernel, by decide +kernel⟩
 
-/-- the `reset` observation is accepted by `observation_spec.validate` for EVERY draw of the generator (any
-recursive-division maze of the configured size ≥ 1×1) and every configuration with `time_limit ≥ 0`: fields `grid`,
+/-- the `reset` observation is accepted by `observation_spec.validate` for every maze accepted by the certificate
+`isRecursiveDivisionMaze` ("of certificate", audit r5 #11) of the configured size ≥ 1×1 and every configuration with `time_limit ≥ 0`: fields `grid`,
 `agents_locations`, `action_mask`, `step_count`; shapes `(rows, cols)`, `(agents, 2)`, `(agents, 4)`, `()`; dtypes int8,
 int32, bool, int32; bounds [0, 2], [0, rows] × [0, cols], [0, 1], [0, T] -/
 theorem cleaner_reset_obs_valid (cfg : Cfg) (maze : Jx.Grid Bool) (hr : 0 < cfg.numRows) (hc : 0 < cfg.numCols)
@@ -454,7 +476,7 @@ theorem cleaner_reset_obs_valid (cfg : Cfg) (maze : Jx.Grid Bool) (hr : 0 < cfg.
   Cleaner.reset_obs_valid cfg maze hr hc hm htl
 
 /-- the same for every `step` observation from a consistent state of a running episode, for every in-spec joint
-action (legal or not), up to and including the terminal step (`Consistent` is established by `reset` for every draw and
+action (legal or not), up to and including the terminal step (`Consistent` is established by `reset` for every maze accepted by the certificate `isRecursiveDivisionMaze` and
 preserved by every step: `cleaner_consistent_along`) -/
 theorem cleaner_step_obs_valid (cfg : Cfg) (s : State) (hC : Consistent cfg s) (h0 : 0 ≤ s.stepCount)
     (h1 : s.stepCount < cfg.timeLimit) (action : List Nat) (hl : action.length = s.agents.length)
@@ -474,7 +496,10 @@ theorem cleaner_obs_valid_along (cfg : Cfg) (maze : Jx.Grid Bool) (hr : 0 < cfg.
 
 /-- what membership means (so the theorems above are not hollow): `validate` accepts an observation ONLY IF its grid has
 `num_rows` rows and `num_rows · num_cols` tiles, all in [0, 2], there are `num_agents` agents and mask rows, and the
-step count is in [0, T] -/
+step count is in [0, T]  CAVEAT (audits r4 #7, r5 #5, r6 #5): for every field that is a nested list, `toNValue` reads the widths off the FIRST row of the
+nested list, so the shape conjuncts here mean "row count, length of the first row, total number of cells" — a ragged value with the right total can be a
+member, and nothing is concluded about the later rows.  Rectangularity is part of the invariant (`SpecInv` / `Shaped` / `Rect…`) under which the
+forward theorems (`…_reset_obs_valid`, `…_step_obs_valid`, `…_along`) are proved, i.e. it holds of every EMITTED observation. -/
 theorem cleaner_obs_valid_only (cfg : Cfg) (o : Obs) (h : (obsSpec cfg).valid (toNValue cfg o) = true) :
     List.length o.grid = cfg.numRows ∧ (List.flatten o.grid).length = cfg.numRows * cfg.numCols ∧
     (∀ v ∈ List.flatten o.grid, 0 ≤ v ∧ v ≤ 2) ∧ o.agents.length = cfg.numAgents ∧
